@@ -656,9 +656,9 @@ Proof.
       * destruct (wf_viewb v); [right; auto | left; reflexivity].
   - destruct read as [v| |]; [| split; [intros _ v' [=] | reflexivity]
                               | split; [intros _ v' [=] | reflexivity]].
-    rewrite !andb_true_iff. split.
-    + intros [[[H1 H2] H3] H4] v' [= <-]. tauto.
-    + intro H. specialize (H v eq_refl). tauto.
+    split.
+    + intros H v' [= <-]. exact H.
+    + intro H. exact (H v eq_refl).
   - rewrite !andb_true_iff, bytes_eqb_spec, eqb_iff, bytes_eqb_spec, operation_eqb_spec.
     unfold op_res_eqb, wf_op.
     rewrite !orb_true_iff, !negb_true_iff, (res_eqb_spec _ _ perr_eqb_spec operation_eqb_spec).
@@ -693,4 +693,370 @@ Lemma absent_local_refuted :
 Proof.
   exists (mk_view [] [([97], absent)] [] [] [] [] []). split; [reflexivity|].
   rewrite (proj1 absent_local_not_roundtrip). discriminate.
+Qed.
+
+(** * Whatever view_from_proto returns is well-formed *)
+Lemma pad_adds_even ads : Nat.even (length (pad_adds ads)) = true.
+Proof. induction ads as [|a t IH]; [reflexivity|]. cbn [pad_adds length]. exact IH. Qed.
+
+Lemma zip_legacy_even rs : forall ads, Nat.even (length (zip_legacy rs ads)) = true.
+Proof.
+  induction rs as [|r rs IH]; intro ads; [apply pad_adds_even|].
+  destruct ads as [|a ads]; cbn [zip_legacy length]; apply IH.
+Qed.
+
+Lemma from_legacy_form_odd rs ads : oddb (from_legacy_form rs ads) = true.
+Proof.
+  unfold from_legacy_form. destruct ads as [|a ads]; rewrite oddb_cons; apply zip_legacy_even.
+Qed.
+
+Lemma interleave_even {A} (rs : list A) : forall ads l,
+  interleave rs ads = Ok l -> Nat.even (length l) = true.
+Proof.
+  induction rs as [|r rs IH]; intros [|a ads] l; cbn [interleave]; try discriminate.
+  - intros [= <-]. reflexivity.
+  - destruct (interleave rs ads) as [l'| |] eqn:E; cbn [rbind]; try discriminate.
+    intros [= <-]. cbn [length]. exact (IH _ _ E).
+Qed.
+
+Lemma ref_target_from_proto_odd p t : ref_target_from_proto p = Ok t -> oddb t = true.
+Proof.
+  destruct p as [[[b|rs ads|rs ads]|]|]; cbn [ref_target_from_proto]; try discriminate.
+  - intros [= <-]. reflexivity.
+  - intros [= <-]. apply from_legacy_form_odd.
+  - unfold from_removes_adds. destruct ads as [|a ads]; [discriminate|].
+    destruct (interleave rs ads) as [l| |] eqn:E; cbn [rbind]; try discriminate.
+    intros [= <-]. rewrite oddb_cons. exact (interleave_even _ _ _ E).
+  - intros [= <-]. reflexivity.
+Qed.
+
+Lemma terms_from_proto_odd ts t : ref_target_from_terms_proto ts = Ok t -> oddb t = true.
+Proof.
+  unfold ref_target_from_terms_proto, oddb. destruct (Nat.even (length ts)) eqn:E; [discriminate|].
+  intros [= <-]. rewrite <- Nat.negb_even, E. reflexivity.
+Qed.
+
+Lemma rmapM_Forall {E A B} (f : A -> res E B) (P : B -> Prop) l : forall l',
+  (forall x y, In x l -> f x = Ok y -> P y) -> rmapM f l = Ok l' -> Forall P l'.
+Proof.
+  induction l as [|x l IH]; intros l' H; cbn [rmapM].
+  - intros [= <-]. constructor.
+  - destruct (f x) as [y| |] eqn:Fx; cbn [rbind]; try discriminate.
+    destruct (rmapM f l) as [ys| |] eqn:R; cbn [rbind]; try discriminate.
+    intros [= <-]. constructor.
+    + eapply H; [left; reflexivity | exact Fx].
+    + apply IH; [|reflexivity]. intros x' y' Hin. apply H. right. exact Hin.
+Qed.
+
+Lemma map_insert_In_weak {V} k (v : V) m x :
+  In x (map_insert k v m) -> x = (k, v) \/ In x m.
+Proof.
+  induction m as [|[k' v'] m IH]; cbn [map_insert].
+  - intros [<-|[]]. left; reflexivity.
+  - destruct (bytes_ltb k k'); [intros [<-|H]; auto|].
+    destruct (bytes_ltb k' k).
+    + intros [<-|H]; [right; left; reflexivity|]. destruct (IH H); auto. right; right; assumption.
+    + intros [<-|H]; [left; reflexivity | right; right; exact H].
+Qed.
+
+Lemma fold_insert_Forall {V} (P : bytes * V -> Prop) (l : list (bytes * V)) : forall m,
+  Forall P m -> Forall P l ->
+  Forall P (fold_left (fun m kv => map_insert (fst kv) (snd kv) m) l m).
+Proof.
+  induction l as [|[k v] l IH]; intros m Hm Hl; [exact Hm|].
+  inversion Hl; subst. cbn [fold_left fst snd]. apply IH; [|assumption].
+  apply Forall_forall. intros x Hx. apply map_insert_In_weak in Hx as [->|Hx]; [assumption|].
+  rewrite Forall_forall in Hm. apply Hm, Hx.
+Qed.
+
+Lemma map_of_list_Forall {V} (P : bytes * V -> Prop) (l : list (bytes * V)) :
+  Forall P l -> Forall P (map_of_list l).
+Proof. intro H. apply fold_insert_Forall; [constructor | exact H]. Qed.
+
+Lemma map_insert_Forall {V} (P : bytes * V -> Prop) k (v : V) m :
+  P (k, v) -> Forall P m -> Forall P (map_insert k v m).
+Proof.
+  intros Hk Hm. apply Forall_forall. intros x Hx.
+  apply map_insert_In_weak in Hx as [->|Hx]; [exact Hk|]. rewrite Forall_forall in Hm. apply Hm, Hx.
+Qed.
+
+Lemma targets_oddb_Forall {K} (m : list (K * target)) :
+  targets_oddb m = true <-> Forall (fun kv => oddb (snd kv) = true) m.
+Proof. unfold targets_oddb. rewrite forallb_forall, Forall_forall. reflexivity. Qed.
+
+Lemma named_targets_odd l l' :
+  rmapM named_target_from_proto l = Ok l' -> Forall (fun kv : bytes * target => oddb (snd kv) = true) l'.
+Proof.
+  apply rmapM_Forall. intros [k p] [k' t] _. unfold named_target_from_proto. cbn [fst snd].
+  destruct (ref_target_from_proto p) as [t'| |] eqn:E; cbn [rbind]; try discriminate.
+  intros [= _ <-]. exact (ref_target_from_proto_odd _ _ E).
+Qed.
+
+Lemma git_refs_odd l l' :
+  rmapM git_ref_from_proto l = Ok l' -> Forall (fun kv : bytes * target => oddb (snd kv) = true) l'.
+Proof.
+  apply rmapM_Forall. intros [n c p] [k' t] _. unfold git_ref_from_proto. cbn [pgr_target pgr_name pgr_commit_id].
+  destruct p as [p0|].
+  - destruct (ref_target_from_proto (Some p0)) as [t'| |] eqn:E; cbn [rbind]; try discriminate.
+    intros [= _ <-]. exact (ref_target_from_proto_odd _ _ E).
+  - intros [= _ <-]. reflexivity.
+Qed.
+
+Definition ref_ok (kv : bytes * remote_ref) : Prop := oddb (rr_target (snd kv)) = true.
+Definition rv_ok (kv : bytes * remote_view) : Prop :=
+  refs_okb (rv_bookmarks (snd kv)) = true /\ refs_okb (rv_tags (snd kv)) = true.
+
+Lemma refs_okb_intro m : keys_sortedb m = true -> Forall ref_ok m -> refs_okb m = true.
+Proof.
+  intros S F. unfold refs_okb. rewrite S. cbn. apply forallb_forall. intros kv Hin.
+  rewrite Forall_forall in F. apply F, Hin.
+Qed.
+
+Lemma refs_okb_elim m : refs_okb m = true -> keys_sortedb m = true /\ Forall ref_ok m.
+Proof.
+  unfold refs_okb. intro H. apply andb_true_iff in H as [S F]. split; [exact S|].
+  apply Forall_forall. intros kv Hin. rewrite forallb_forall in F. apply F, Hin.
+Qed.
+
+Lemma remote_refs_from_proto_ok l m : remote_refs_from_proto l = Ok m -> refs_okb m = true.
+Proof.
+  unfold remote_refs_from_proto. destruct (rmapM remote_ref_from_proto l) as [es| |] eqn:R; cbn [rbind]; try discriminate.
+  intros [= <-]. apply refs_okb_intro; [apply map_of_list_sorted|].
+  apply map_of_list_Forall. revert R. apply rmapM_Forall.
+  intros [n ts st] [k rr] _. unfold remote_ref_from_proto. cbn [prr_terms prr_state prr_name].
+  destruct (ref_target_from_terms_proto ts) as [t| |] eqn:E; cbn [rbind]; try discriminate.
+  destruct (state_from_proto st) as [s| |]; cbn [rbind]; try discriminate.
+  intros [= _ <-]. exact (terms_from_proto_odd _ _ E).
+Qed.
+
+Lemma remote_views_from_proto_ok l m :
+  remote_views_from_proto l = Ok m -> keys_sortedb m = true /\ Forall rv_ok m.
+Proof.
+  unfold remote_views_from_proto. destruct (rmapM remote_view_from_proto l) as [es| |] eqn:R; cbn [rbind]; try discriminate.
+  intros [= <-]. split; [apply map_of_list_sorted|].
+  apply map_of_list_Forall. revert R. apply rmapM_Forall.
+  intros [n bs ts] [k rv] _. unfold remote_view_from_proto. cbn [prv_bookmarks prv_tags prv_name].
+  destruct (remote_refs_from_proto bs) as [b| |] eqn:Eb; cbn [rbind]; try discriminate.
+  destruct (remote_refs_from_proto ts) as [t| |] eqn:Et; cbn [rbind]; try discriminate.
+  intros [= _ <-]. split; [exact (remote_refs_from_proto_ok _ _ Eb) | exact (remote_refs_from_proto_ok _ _ Et)].
+Qed.
+
+Lemma map_lookup_Forall {V} (P : bytes * V -> Prop) k (m : list (bytes * V)) v :
+  Forall P m -> map_lookup k m = Some v -> P (k, v).
+Proof.
+  induction m as [|[k' v'] m IH]; intros F; [discriminate|]. inversion F; subst. cbn [map_lookup].
+  destruct (bytes_eqb k k') eqn:E.
+  - apply bytes_eqb_spec in E. subst. intros [= <-]. assumption.
+  - apply IH. assumption.
+Qed.
+
+Lemma rv_ok_empty k : rv_ok (k, rv_empty).
+Proof. split; reflexivity. Qed.
+
+Lemma rvs_insert_bookmark_ok remote name rr rvs :
+  oddb (rr_target rr) = true -> keys_sortedb rvs = true -> Forall rv_ok rvs ->
+  keys_sortedb (rvs_insert_bookmark remote name rr rvs) = true
+  /\ Forall rv_ok (rvs_insert_bookmark remote name rr rvs).
+Proof.
+  intros O S F. unfold rvs_insert_bookmark. split; [apply map_insert_sorted, S|].
+  apply map_insert_Forall; [|exact F].
+  assert (Hrv : rv_ok (remote, match map_lookup remote rvs with Some rv => rv | None => rv_empty end)).
+  { destruct (map_lookup remote rvs) as [rv|] eqn:L; [|apply rv_ok_empty].
+    exact (map_lookup_Forall rv_ok remote rvs rv F L). }
+  destruct Hrv as [Hb Ht]. cbn [snd] in Hb, Ht. split; cbn [snd rv_bookmarks rv_tags]; [|exact Ht].
+  apply refs_okb_elim in Hb as [Sb Fb]. apply refs_okb_intro; [apply map_insert_sorted, Sb|].
+  apply map_insert_Forall; [exact O | exact Fb].
+Qed.
+
+Lemma legacy_remotes_ok' name rbs : forall rvs rvs',
+  keys_sortedb rvs = true -> Forall rv_ok rvs ->
+  legacy_remotes name rbs rvs = Ok rvs' -> keys_sortedb rvs' = true /\ Forall rv_ok rvs'.
+Proof.
+  induction rbs as [|rb rbs IH]; intros rvs rvs' S F; cbn [legacy_remotes].
+  - intros [= <-]. auto.
+  - assert (Step : forall st,
+      rbind (ref_target_from_proto (prb_target rb))
+        (fun tg => legacy_remotes name rbs
+                     (rvs_insert_bookmark (prb_remote rb) name (mk_rr tg st) rvs)) = Ok rvs' ->
+      keys_sortedb rvs' = true /\ Forall rv_ok rvs').
+    { intro st.
+      destruct (ref_target_from_proto (prb_target rb)) as [tg| |] eqn:E; cbn [rbind]; try discriminate.
+      destruct (rvs_insert_bookmark_ok (prb_remote rb) name (mk_rr tg st) rvs
+                  (ref_target_from_proto_odd _ _ E) S F) as [S' F'].
+      intro H. exact (IH _ _ S' F' H). }
+    destruct (prb_state rb) as [n|].
+    + destruct (state_from_proto n) as [st| |]; cbn [rbind]; try discriminate. apply Step.
+    + cbn [rbind]. apply Step.
+Qed.
+
+Definition local_ok (kv : bytes * target) : Prop := oddb (snd kv) = true /\ is_absent (snd kv) = false.
+
+Lemma legacy_bookmarks_wf bs : forall locals rvs locals' rvs',
+  keys_sortedb locals = true -> Forall local_ok locals ->
+  keys_sortedb rvs = true -> Forall rv_ok rvs ->
+  legacy_bookmarks bs locals rvs = Ok (locals', rvs') ->
+  keys_sortedb locals' = true /\ Forall local_ok locals'
+  /\ keys_sortedb rvs' = true /\ Forall rv_ok rvs'.
+Proof.
+  induction bs as [|b bs IH]; intros locals rvs locals' rvs' Sl Fl Sr Fr; cbn [legacy_bookmarks].
+  - intros [= <- <-]. auto.
+  - destruct (ref_target_from_proto (pb_local b)) as [lt| |] eqn:E; cbn [rbind]; try discriminate.
+    destruct (legacy_remotes (pb_name b) (pb_remotes b) rvs) as [rvs1| |] eqn:R; cbn [rbind]; try discriminate.
+    destruct (legacy_remotes_ok' _ _ _ _ Sr Fr R) as [Sr1 Fr1].
+    apply IH; try assumption.
+    + destruct (is_absent lt); [exact Sl | apply map_insert_sorted, Sl].
+    + destruct (is_absent lt) eqn:A; [exact Fl|]. apply map_insert_Forall; [|exact Fl].
+      split; [exact (ref_target_from_proto_odd _ _ E) | exact A].
+Qed.
+
+Lemma git_tags_of_ok grs : forall tags,
+  Forall (fun kv : bytes * target => oddb (snd kv) = true) grs ->
+  git_tags_of grs = Ok tags -> Forall ref_ok tags.
+Proof.
+  induction grs as [|[full t] grs IH]; intros tags F; cbn [git_tags_of].
+  - intros [= <-]. constructor.
+  - inversion F; subst. destruct (strip_prefix C16_GIT_TAGS_PREFIX full) as [[|c name]|].
+    + discriminate.
+    + destruct (git_tags_of grs) as [l| |] eqn:G; cbn [rbind]; try discriminate.
+      intros [= <-]. constructor; [assumption | apply IH; auto].
+    + apply IH. assumption.
+Qed.
+
+Lemma migrate_git_tags_ok git_refs rvs rvs' :
+  Forall (fun kv : bytes * target => oddb (snd kv) = true) git_refs ->
+  keys_sortedb rvs = true -> Forall rv_ok rvs ->
+  migrate_git_tags git_refs rvs = Ok rvs' -> keys_sortedb rvs' = true /\ Forall rv_ok rvs'.
+Proof.
+  intros Fg S F. unfold migrate_git_tags.
+  destruct (git_tags_of git_refs) as [tags| |] eqn:G; cbn [rbind]; try discriminate.
+  destruct (is_nil tags); [intros [= <-]; auto|].
+  set (rv := match map_lookup C16_REMOTE_NAME_FOR_LOCAL_GIT_REPO rvs with Some rv => rv | None => rv_empty end).
+  assert (Hrv : rv_ok (C16_REMOTE_NAME_FOR_LOCAL_GIT_REPO, rv)).
+  { unfold rv. destruct (map_lookup C16_REMOTE_NAME_FOR_LOCAL_GIT_REPO rvs) as [rv0|] eqn:L; [|apply rv_ok_empty].
+    exact (map_lookup_Forall rv_ok _ rvs rv0 F L). }
+  destruct (is_nil (rv_tags rv)); [|discriminate]. intros [= <-].
+  split; [apply map_insert_sorted, S|]. apply map_insert_Forall; [|exact F].
+  destruct Hrv as [Hb _]. split; cbn [snd rv_bookmarks rv_tags]; [exact Hb|].
+  apply refs_okb_intro; [apply map_of_list_sorted|]. apply map_of_list_Forall.
+  exact (git_tags_of_ok _ _ Fg G).
+Qed.
+
+Lemma forallb_of_Forall {A} (f : A -> bool) l : Forall (fun x => f x = true) l -> forallb f l = true.
+Proof. intro H. apply forallb_forall. rewrite Forall_forall in H. exact H. Qed.
+
+Lemma set_of_list_sorted l : strict_sortedb (set_of_list l) = true.
+Proof. unfold set_of_list. apply (map_of_list_sorted (V:=unit)). Qed.
+
+Theorem view_from_proto_wf p v : view_from_proto p = Ok v -> wf_view v.
+Proof.
+  unfold view_from_proto, bookmark_views_from_proto_legacy.
+  destruct (legacy_bookmarks (pv_bookmarks p) [] []) as [[locals rvs0]| |] eqn:L; cbn [rbind]; try discriminate.
+  destruct (legacy_bookmarks_wf _ [] [] locals rvs0 eq_refl (Forall_nil _) eq_refl (Forall_nil _) L)
+    as [Sl [Fl [Sr0 Fr0]]].
+  destruct (rmapM named_target_from_proto (pv_local_tags p)) as [tags| |] eqn:T; cbn [rbind]; try discriminate.
+  destruct (rmapM git_ref_from_proto (pv_git_refs p)) as [grs| |] eqn:G; cbn [rbind]; try discriminate.
+  pose proof (map_of_list_Forall _ _ (git_refs_odd _ _ G)) as Fgr.
+  cbn [fst snd].
+  assert (Hrvs : forall rvs, (if is_nil (pv_remote_views p) then Ok rvs0
+                              else remote_views_from_proto (pv_remote_views p)) = Ok rvs ->
+                             keys_sortedb rvs = true /\ Forall rv_ok rvs).
+  { intros rvs. destruct (is_nil (pv_remote_views p)); [intros [= <-]; auto|].
+    apply remote_views_from_proto_ok. }
+  destruct (if is_nil (pv_remote_views p) then Ok rvs0 else remote_views_from_proto (pv_remote_views p))
+    as [rvs| |] eqn:RV; cbn [rbind]; try discriminate.
+  destruct (Hrvs rvs eq_refl) as [Sr Fr].
+  assert (Hrvs' : forall rvs', (if pv_migrated p then Ok rvs else migrate_git_tags (map_of_list grs) rvs) = Ok rvs' ->
+                               keys_sortedb rvs' = true /\ Forall rv_ok rvs').
+  { intros rvs'. destruct (pv_migrated p); [intros [= <-]; auto|].
+    apply migrate_git_tags_ok; assumption. }
+  destruct (if pv_migrated p then Ok rvs else migrate_git_tags (map_of_list grs) rvs) as [rvs'| |] eqn:RV';
+    cbn [rbind]; try discriminate.
+  destruct (Hrvs' rvs' eq_refl) as [Sr' Fr'].
+  destruct (rmapM named_target_from_proto (pv_git_heads p)) as [ghs| |] eqn:GH; cbn [rbind]; try discriminate.
+  pose proof (map_of_list_Forall _ _ (named_targets_odd _ _ GH)) as Fgh.
+  pose proof (map_of_list_Forall _ _ (named_targets_odd _ _ T)) as Flt.
+  assert (Hgh : forall ghs', (if is_nil (map_of_list ghs)
+      then rbind match pv_git_head p with
+                 | Some _ => ref_target_from_proto (pv_git_head p)
+                 | None => if is_nil (pv_git_head_legacy p) then Ok absent else Ok [Some (pv_git_head_legacy p)]
+                 end
+             (fun gh => Ok (if is_absent gh then map_of_list ghs
+                            else map_insert C16_WORKSPACE_DEFAULT gh (map_of_list ghs)))
+      else Ok (map_of_list ghs)) = Ok ghs' ->
+      keys_sortedb ghs' = true /\ Forall (fun kv : bytes * target => oddb (snd kv) = true) ghs').
+  { intros ghs'. destruct (is_nil (map_of_list ghs)).
+    - destruct (pv_git_head p) as [gp|] eqn:Egp.
+      + destruct (ref_target_from_proto (Some gp)) as [gh| |] eqn:E; cbn [rbind]; try discriminate.
+        intros [= <-]. destruct (is_absent gh); [split; [apply map_of_list_sorted | exact Fgh]|].
+        split; [apply map_insert_sorted, map_of_list_sorted|].
+        apply map_insert_Forall; [exact (ref_target_from_proto_odd _ _ E) | exact Fgh].
+      + destruct (is_nil (pv_git_head_legacy p)); cbn [rbind]; intros [= <-].
+        * split; [apply map_of_list_sorted | exact Fgh].
+        * split; [apply map_insert_sorted, map_of_list_sorted|].
+          apply map_insert_Forall; [reflexivity | exact Fgh].
+    - intros [= <-]. split; [apply map_of_list_sorted | exact Fgh]. }
+  match goal with |- rbind ?X _ = _ -> _ => destruct X as [ghs'| |] eqn:GH' end; cbn [rbind]; try discriminate.
+  destruct (Hgh ghs' eq_refl) as [Sgh Fgh'].
+  intros [= <-]. unfold wf_view, wf_viewb.
+  cbn [v_head_ids v_local_bookmarks v_local_tags v_remote_views v_git_refs v_git_heads v_wc_commit_ids].
+  rewrite set_of_list_sorted, Sl, !map_of_list_sorted, Sr', Sgh. cbn [andb].
+  assert (E1 : targets_oddb locals = true).
+  { apply targets_oddb_Forall. eapply Forall_impl; [|exact Fl]. intros a [H _]. exact H. }
+  assert (E2 : forallb (fun kv : bytes * target => negb (is_absent (snd kv))) locals = true).
+  { apply forallb_of_Forall. eapply Forall_impl; [|exact Fl]. intros a [_ H]. rewrite H. reflexivity. }
+  assert (E3 : targets_oddb (map_of_list tags) = true) by (apply targets_oddb_Forall; exact Flt).
+  assert (E4 : forallb (fun kv : bytes * remote_view =>
+                          refs_okb (rv_bookmarks (snd kv)) && refs_okb (rv_tags (snd kv))) rvs' = true).
+  { apply forallb_of_Forall. eapply Forall_impl; [|exact Fr']. intros a [H1 H2]. rewrite H1, H2. reflexivity. }
+  assert (E5 : targets_oddb (map_of_list grs) = true) by (apply targets_oddb_Forall; exact Fgr).
+  assert (E6 : targets_oddb ghs' = true) by (apply targets_oddb_Forall; exact Fgh').
+  rewrite E1, E2, E3, E4, E5, E6. cbn [andb].
+  apply fold_insert_sorted. destruct (is_nil (pv_wc_commit_id p)); reflexivity.
+Qed.
+
+(** Hence a view that was read can be written and read again unchanged. *)
+Corollary view_reread p v :
+  view_from_proto p = Ok v -> view_from_proto (view_to_proto v) = Ok v.
+Proof.
+  intro H. apply view_from_proto_wf in H.
+  exact (view_roundtrip v (v_head_ids v) (v_wc_commit_ids v) H
+           (Permutation_refl _) (Permutation_refl _)).
+Qed.
+
+(** * Whatever read_operation returns is well-formed *)
+Lemma hash_ids_len n l l' :
+  rmapM (hash_id_from_proto n) l = Ok l' -> forallb (len_is n) l' = true.
+Proof.
+  intro H. apply forallb_of_Forall. revert H. apply rmapM_Forall.
+  intros x y _. unfold hash_id_from_proto, len_is. destruct (N.of_nat (length x) =? n) eqn:E; [|discriminate].
+  intros [= <-]. exact E.
+Qed.
+
+Theorem read_operation_wf p o : read_operation p = Ok o -> wf_op o.
+Proof.
+  unfold read_operation, operation_from_proto.
+  destruct (rmapM (hash_id_from_proto C16_OPERATION_ID_LENGTH) (po_parents p)) as [parents| |] eqn:P;
+    cbn [rbind]; try discriminate.
+  pose proof (hash_ids_len _ _ _ P) as Lp.
+  unfold hash_id_from_proto at 1.
+  destruct (N.of_nat (length (po_view_id p)) =? C16_VIEW_ID_LENGTH) eqn:Lv; cbn [rbind]; [|discriminate].
+  cbn [op_parents op_view_id op_meta op_predecessors].
+  assert (Sa : keys_sortedb (md_attributes (metadata_from_proto (po_metadata p))) = true).
+  { unfold metadata_from_proto. cbn [md_attributes]. apply map_of_list_sorted. }
+  assert (Spd : match (if po_stores p then Some (map_of_list (po_predecessors p)) else None) with
+                | Some m => keys_sortedb m | None => true end = true).
+  { destruct (po_stores p); [apply map_of_list_sorted | reflexivity]. }
+  destruct parents as [|p0 parents]; cbn [is_nil]; intros [= <-]; unfold wf_op, wf_opb;
+    cbn [op_view_id op_parents op_meta op_predecessors is_nil negb]; unfold len_is at 1;
+    rewrite Lv, Sa, Spd.
+  - vm_compute. reflexivity.
+  - rewrite Lp. reflexivity.
+Qed.
+
+Corollary operation_reread p o :
+  read_operation p = Ok o -> read_operation (operation_to_proto o) = Ok o.
+Proof.
+  intro H. apply read_operation_wf in H.
+  pose proof (operation_roundtrip o (md_attributes (op_meta o)) H (Permutation_refl _)) as R.
+  destruct o as [vid parents [s e de ho us sn ws attrs] preds]. exact R.
 Qed.
